@@ -304,7 +304,8 @@ un = [("insert","BlockRanges::insert_relaxed,"+FE,"op args a,e free u64"),
       ("left_right_of","BlockRanges::{left_of,right_of},BlockRangeExt::{is_left_of,is_right_of}","x>=1 free u64"),
       ("partitions","BlockRanges::partitions,BlockRanges::{len,pop_head,pop_tail,insert_relaxed}","")]
 for f,funcs,extra in un:
-    maxn = 3
+    # partitions with 2 and 3 stored ranges time out (1500 s, both SAT back ends): not registered
+    maxn = 1 if f == "partitions" else 3
     for n in range(0, maxn+1):
         tier = "quick" if n <= 1 or (f in ("headn", "tailn") and n == 3) else "thorough"
         shape = f"{n} stored ranges with free u64 bounds (invariant assumed); {extra}; probe height free u64"
